@@ -1,1 +1,875 @@
-(* Front/Parse.v -- stub, to be filled *)
+(* Front/Parse.v -- layer F1: executable model of the recursive-descent parser
+   asn1rs-model/src/asn/{model,peekable,integer,size,components,choice,enumerated,bit_string,tag,
+   inner_type_constraints}.rs and LiteralValue::try_from_asn_str (asn/mod.rs), function for function, over
+   `list token` (the `Peekable<IntoIter<Token>>` of the Rust code is the list of tokens not yet consumed).
+
+   Rust                                              model
+   -----------------------------------------------   ------------------------------------------------
+   PeekableTokens::*                                 next_or_err, next_text_or_err, next_sep_or_err, next_is_sep, ...
+   str::parse::<i64 / usize / u64>                   parse_i64 / parse_u64 (usize = u64: 64-bit target)
+   Model::try_from                                   parse_module
+   read_oid / maybe_read_oid / read_imports          read_oid_loop / maybe_read_oid / read_imports_loop
+   Tag::try_from, next_with_opt_tag                  read_tag, next_with_opt_tag
+   Size::try_from, maybe_read_size                   read_size, maybe_read_size
+   Integer::try_from, maybe_read_constants           read_integer, maybe_read_constants
+   Enumerated::try_from                              read_enumerated
+   InnerTypeConstraints / ValueConstraint /          read_inner_type_constraints (result dropped, as in
+     PresenceConstraint ::try_from                     read_role_given_text: `let _ = ...`)
+   read_literal, read_string_literal,                read_literal, read_string_literal, read_hex_or_bit_string_literal,
+     read_hex_or_bit_string_literal,                   literal_of_asn_str
+     LiteralValue::try_from_asn_str
+   read_role_given_text, read_role,                  the mutual fixpoint read_role_given_text / read_components /
+     read_sequence_or_sequence_of, read_set_or_set_of,  read_field / read_choice (one unit of fuel per call; loops
+     ComponentTypeList::try_from, read_field,           one unit per iteration)
+     Choice::try_from
+   make_names_nice                                   make_name_nice
+
+   Loops that consume a token per iteration run on fuel `S (length tokens)`; the type grammar runs on the fuel
+   given to parse_module.  Fuel exhaustion is POutOfFuel, never a value.
+   `char::is_numeric` (read_oid) is modelled on ASCII only; non-ASCII text is outside the model (DESIGN 2.3). *)
+From Coq Require Import String Ascii.
+From A1 Require Export Front.Ast.
+Local Open Scope N_scope.
+
+Fixpoint s2n (s : string) : str :=
+  match s with
+  | EmptyString => []
+  | String a r => N_of_ascii a :: s2n r
+  end.
+
+Definition toks : Type := list token.
+
+(* ---------- numbers ---------- *)
+
+Fixpoint digits_val (s : str) (acc : N) : option N :=
+  match s with
+  | [] => Some acc
+  | c :: s' => if is_ascii_digit c then digits_val s' (acc * 10 + (c - 48)) else None
+  end.
+
+Definition U64_MAX : N := 18446744073709551615.
+Definition I64_MAX_N : N := 9223372036854775807.
+Definition I64_MAX_Z : Z := 9223372036854775807%Z.
+
+Definition strip_plus (s : str) : str :=
+  match s with c :: r => if c =? 43 then r else s | [] => [] end.
+
+(* <u64 as FromStr>::from_str: optional '+', at least one digit, no overflow *)
+Definition parse_u64 (s : str) : option N :=
+  let body := strip_plus s in
+  match body with
+  | [] => None
+  | _ => match digits_val body 0 with
+         | Some v => if v <=? U64_MAX then Some v else None
+         | None => None
+         end
+  end.
+
+(* <i64 as FromStr>::from_str *)
+Definition parse_i64 (s : str) : option Z :=
+  match s with
+  | 45 :: r =>
+      match r with
+      | [] => None
+      | _ => match digits_val r 0 with
+             | Some v => if v <=? I64_MAX_N + 1 then Some (- Z.of_N v)%Z else None
+             | None => None
+             end
+      end
+  | _ =>
+      let body := strip_plus s in
+      match body with
+      | [] => None
+      | _ => match digits_val body 0 with
+             | Some v => if v <=? I64_MAX_N then Some (Z.of_N v) else None
+             | None => None
+             end
+      end
+  end.
+
+(* ---------- Token accessors ---------- *)
+
+Definition tok_text (t : token) : option str := match t with Text _ _ s => Some s | Separator _ _ _ => None end.
+Definition eq_separator (t : token) (c : N) : bool := match t with Separator _ _ x => x =? c | Text _ _ _ => false end.
+Definition eq_text_ic (t : token) (kw : str) : bool := match t with Text _ _ s => eq_ignore_case s kw | Separator _ _ _ => false end.
+Definition is_text (t : token) : bool := match t with Text _ _ _ => true | Separator _ _ _ => false end.
+
+(* ---------- PeekableTokens ---------- *)
+
+Definition next_or_err (ts : toks) : pres (token * toks) :=
+  match ts with [] => PErr E_END_OF_STREAM None | t :: r => POk (t, r) end.
+
+Definition next_text_or_err (ts : toks) : pres (str * toks) :=
+  match ts with
+  | [] => PErr E_END_OF_STREAM None
+  | Text _ _ s :: r => POk (s, r)
+  | t :: _ => PErr E_EXPECTED_TEXT (Some t)
+  end.
+
+Definition next_text_eq_ic_or_err (kw : str) (ts : toks) : pres (token * toks) :=
+  match ts with
+  | [] => PErr E_END_OF_STREAM None
+  | t :: r => if eq_text_ic t kw then POk (t, r) else PErr E_EXPECTED_TEXT_GOT (Some t)
+  end.
+
+Definition next_text_eq_any_ic_or_err (kws : list str) (ts : toks) : pres (token * toks) :=
+  match ts with
+  | [] => PErr E_END_OF_STREAM None
+  | t :: r => if existsb (eq_text_ic t) kws then POk (t, r) else PErr E_UNEXPECTED_TOKEN (Some t)
+  end.
+
+Definition next_if_sep (c : N) (ts : toks) : pres (token * toks) :=
+  match ts with
+  | [] => PErr E_END_OF_STREAM None
+  | t :: r => if eq_separator t c then POk (t, r) else PErr E_EXPECTED_SEPARATOR_GOT (Some t)
+  end.
+
+Definition next_sep_or_err (c : N) (ts : toks) : pres toks :=
+  let? (_, r) := next_if_sep c ts in POk r.
+
+(* next_is_separator_and_eq: consumes the token only when it matches *)
+Definition next_is_sep (c : N) (ts : toks) : bool * toks :=
+  match ts with
+  | t :: r => if eq_separator t c then (true, r) else (false, ts)
+  | [] => (false, [])
+  end.
+
+Definition next_is_text_ic (kw : str) (ts : toks) : bool * toks :=
+  match ts with
+  | t :: r => if eq_text_ic t kw then (true, r) else (false, ts)
+  | [] => (false, [])
+  end.
+
+Definition peek_is_sep (c : N) (ts : toks) : bool :=
+  match ts with t :: _ => eq_separator t c | [] => false end.
+
+Definition peek_is_text_ic (kw : str) (ts : toks) : bool :=
+  match ts with t :: _ => eq_text_ic t kw | [] => false end.
+
+(* separator characters *)
+Definition C_LBRACE : N := 123.  Definition C_RBRACE : N := 125.
+Definition C_LPAREN : N := 40.   Definition C_RPAREN : N := 41.
+Definition C_LBRACKET : N := 91. Definition C_RBRACKET : N := 93.
+Definition C_COMMA : N := 44.    Definition C_DOT : N := 46.
+Definition C_COLON : N := 58.    Definition C_SEMI : N := 59.
+Definition C_EQ : N := 61.       Definition C_QUOTE : N := 34.   Definition C_APOS : N := 39.
+
+(* keywords *)
+Definition KW (s : string) : str := s2n s.
+
+(* loop_ctrl_separator!: Some true = continue, Some false = break *)
+Definition loop_ctrl (t : token) : pres bool :=
+  if eq_separator t C_COMMA then POk true
+  else if eq_separator t C_RBRACE then POk false
+  else PErr E_UNEXPECTED_TOKEN (Some t).
+
+(* ---------- object identifiers, imports ---------- *)
+
+Definition is_numeric (c : N) : bool := is_ascii_digit c.     (* ASCII only, see header *)
+
+Fixpoint read_oid_loop (fuel : nat) (ts : toks) (acc : list oidc) : pres (list oidc * toks) :=
+  match fuel with
+  | O => POutOfFuel
+  | S fuel' =>
+      match ts with
+      | [] => POk (rev acc, [])
+      | t :: r =>
+          if eq_separator t C_RBRACE then POk (rev acc, r)
+          else match t with
+               | Text _ _ ident =>
+                   if forallb is_numeric ident then
+                     match parse_u64 ident with
+                     | Some v => read_oid_loop fuel' r (NumberForm v :: acc)
+                     | None => PErr E_INVALID_INT_TEXT (Some t)
+                     end
+                   else
+                     let (b, r1) := next_is_sep C_LPAREN r in
+                     if b then
+                       let? (txt, r2) := next_text_or_err r1 in
+                       match parse_u64 txt with
+                       | Some v => let? r3 := next_sep_or_err C_RPAREN r2 in
+                                   read_oid_loop fuel' r3 (NameAndNumberForm ident v :: acc)
+                       | None => PErr E_INVALID_INT_TEXT (Some t)
+                       end
+                     else read_oid_loop fuel' r1 (NameForm ident :: acc)
+               | Separator _ _ _ => PErr E_UNEXPECTED_TOKEN (Some t)
+               end
+      end
+  end.
+
+Definition read_oid (ts : toks) : pres (list oidc * toks) := read_oid_loop (S (length ts)) ts [].
+
+Definition maybe_read_oid (ts : toks) : pres (option (list oidc) * toks) :=
+  let (b, r) := next_is_sep C_LBRACE ts in
+  if b then let? (o, r') := read_oid r in POk (Some o, r') else POk (None, r).
+
+Fixpoint read_imports_loop (fuel : nat) (ts : toks) (what : list str) (acc : list import)
+  : pres (list import * toks) :=
+  match fuel with
+  | O => POutOfFuel
+  | S fuel' =>
+      match ts with
+      | [] => PErr E_END_OF_STREAM None
+      | t :: r =>
+          if eq_separator t C_SEMI then POk (rev acc, r)
+          else match t with
+               | Separator _ _ _ => PErr E_UNEXPECTED_TOKEN (Some t)
+               | Text _ _ text =>
+                   let what' := what ++ [text] in
+                   let? (t2, r2) := next_or_err r in
+                   if eq_separator t2 C_COMMA then read_imports_loop fuel' r2 what' acc
+                   else if eq_text_ic t2 (KW "FROM") then
+                     let? (from, r3) := next_text_or_err r2 in
+                     let? (oid, r4) := maybe_read_oid r3 in
+                     read_imports_loop fuel' r4 []
+                       ({| i_what := what'; i_from := from; i_from_oid := oid |} :: acc)
+                   else read_imports_loop fuel' r2 what' acc
+               end
+      end
+  end.
+
+Definition read_imports (ts : toks) : pres (list import * toks) := read_imports_loop (S (length ts)) ts [] [].
+
+(* ---------- tags ---------- *)
+
+Definition parse_tag_number (t : token) : pres N :=
+  match tok_text t with
+  | Some s => match parse_u64 s with Some v => POk v | None => PErr E_INVALID_TAG (Some t) end
+  | None => PErr E_INVALID_TAG (Some t)
+  end.
+
+Definition read_tag (ts : toks) : pres (atag * toks) :=
+  let? (t, r) := next_or_err ts in
+  if eq_text_ic t (KW "UNIVERSAL") then
+    let? (n, r') := next_or_err r in let? v := parse_tag_number n in POk (TagUniversal v, r')
+  else if eq_text_ic t (KW "APPLICATION") then
+    let? (n, r') := next_or_err r in let? v := parse_tag_number n in POk (TagApplication v, r')
+  else if eq_text_ic t (KW "PRIVATE") then
+    let? (n, r') := next_or_err r in let? v := parse_tag_number n in POk (TagPrivate v, r')
+  else if is_text t then
+    let? v := parse_tag_number t in POk (TagContext v, r)
+  else PErr E_EXPECTED_TEXT (Some t).
+
+Definition next_with_opt_tag (ts : toks) : pres (token * option atag * toks) :=
+  let? (t, r) := next_or_err ts in
+  if eq_separator t C_LBRACKET then
+    let? (tag, r1) := read_tag r in
+    let? r2 := next_sep_or_err C_RBRACKET r1 in
+    let? (t', r3) := next_or_err r2 in
+    POk (t', Some tag, r3)
+  else POk (t, None, r).
+
+(* ---------- SIZE ---------- *)
+
+Definition lor_n_eqb (a b : lit_or_ref N) : bool :=
+  match a, b with
+  | Lit x, Lit y => x =? y
+  | Ref s, Ref t => str_eqb s t
+  | _, _ => false
+  end.
+
+Definition size_bound (skip_kw : str) (skip_val : N) (t : token) : option (lit_or_ref N) :=
+  match tok_text t with
+  | None => None
+  | Some s =>
+      if eq_ignore_case s skip_kw then None
+      else let v := match parse_u64 s with Some n => Lit n | None => Ref s end in
+           if lor_n_eqb (Lit skip_val) v then None else Some v
+  end.
+
+Definition three_dots (ts : toks) : pres toks :=
+  let? r1 := next_sep_or_err C_DOT ts in
+  let? r2 := next_sep_or_err C_DOT r1 in
+  next_sep_or_err C_DOT r2.
+
+Definition opt_default (o : option (lit_or_ref N)) (d : lit_or_ref N) : lit_or_ref N :=
+  match o with Some v => v | None => d end.
+
+(* Size::try_from *)
+Definition read_size (ts : toks) : pres (size (lit_or_ref N) * toks) :=
+  let? (_, r0) := next_text_eq_ic_or_err (KW "SIZE") ts in
+  let? r1 := next_sep_or_err C_LPAREN r0 in
+  let? (st, r2) := next_or_err r1 in
+  let start := size_bound (KW "MIN") 0 st in
+  if negb (peek_is_sep C_DOT r2) then
+    let? (t, r3) := next_or_err r2 in
+    if eq_separator t C_RPAREN then POk (SFix (opt_default start (Lit 0)) false, r3)
+    else if eq_separator t C_COMMA then
+      let? r4 := three_dots r3 in
+      let? r5 := next_sep_or_err C_RPAREN r4 in
+      POk (SFix (opt_default start (Lit 0)) true, r5)
+    else PErr E_UNEXPECTED_TOKEN (Some t)
+  else
+    let? r3 := next_sep_or_err C_DOT r2 in
+    let? r4 := next_sep_or_err C_DOT r3 in
+    let? (en, r5) := next_or_err r4 in
+    let end_ := size_bound (KW "MAX") I64_MAX_N en in
+    match start, end_ with
+    | None, None =>
+        let? r6 := next_sep_or_err C_RPAREN r5 in POk (SAny, r6)
+    | _, _ =>
+        let s := opt_default start (Lit 0) in
+        let e := opt_default end_ (Lit I64_MAX_N) in
+        let (b, r6) := next_is_sep C_COMMA r5 in
+        let? r7 := (if b then three_dots r6 else POk r6) in
+        let? r8 := next_sep_or_err C_RPAREN r7 in
+        if lor_n_eqb s e then POk (SFix s b, r8) else POk (SRange s e b, r8)
+    end.
+
+(* Model::maybe_read_size *)
+Definition maybe_read_size (ts : toks) : pres (size (lit_or_ref N) * toks) :=
+  let (b, r) := next_is_sep C_LPAREN ts in
+  if b then
+    let? (s, r1) := read_size r in
+    let? r2 := next_sep_or_err C_RPAREN r1 in POk (s, r2)
+  else if peek_is_text_ic (KW "SIZE") ts then read_size ts
+  else POk (SAny, ts).
+
+(* ---------- named numbers, INTEGER ---------- *)
+
+Section Constants.
+  Variable V : Type.
+  Variable parser : token -> pres V.
+
+  (* Model::read_constant *)
+  Definition read_constant (ts : toks) : pres (str * V * toks) :=
+    let? (name, r1) := next_text_or_err ts in
+    let? r2 := next_sep_or_err C_LPAREN r1 in
+    let? (value, r3) := next_or_err r2 in
+    let? r4 := next_sep_or_err C_RPAREN r3 in
+    let? v := parser value in
+    POk (name, v, r4).
+
+  Fixpoint read_constants_loop (fuel : nat) (ts : toks) (acc : list (str * V)) : pres (list (str * V) * toks) :=
+    match fuel with
+    | O => POutOfFuel
+    | S fuel' =>
+        let? (name, v, r) := read_constant ts in
+        let? (t, r') := next_or_err r in
+        let? cont := loop_ctrl t in
+        if cont then read_constants_loop fuel' r' ((name, v) :: acc)
+        else POk (rev ((name, v) :: acc), r')
+    end.
+
+  (* Model::maybe_read_constants *)
+  Definition maybe_read_constants (ts : toks) : pres (list (str * V) * toks) :=
+    let (b, r) := next_is_sep C_LBRACE ts in
+    if b then read_constants_loop (S (length r)) r [] else POk ([], r).
+End Constants.
+
+Definition constant_i64_parser (t : token) : pres Z :=
+  match tok_text t with
+  | Some s => match parse_i64 s with Some v => POk v | None => PErr E_INVALID_VALUE_FOR_CONSTANT (Some t) end
+  | None => PErr E_INVALID_VALUE_FOR_CONSTANT (Some t)
+  end.
+
+Definition constant_u64_parser (t : token) : pres N :=
+  match tok_text t with
+  | Some s => match parse_u64 s with Some v => POk v | None => PErr E_INVALID_VALUE_FOR_CONSTANT (Some t) end
+  | None => PErr E_INVALID_VALUE_FOR_CONSTANT (Some t)
+  end.
+
+Definition range_bound (skip_kw : str) (t : token) : option (lit_or_ref Z) :=
+  match tok_text t with
+  | None => None
+  | Some s =>
+      if eq_ignore_case s skip_kw then None
+      else Some (match parse_i64 s with Some v => Lit v | None => Ref s end)
+  end.
+
+(* Integer::try_from *)
+Definition read_integer (ts : toks) : pres (arange (lit_or_ref Z) * list (str * Z) * toks) :=
+  let? (consts, r0) := maybe_read_constants Z constant_i64_parser ts in
+  let (b, r1) := next_is_sep C_LPAREN r0 in
+  if b then
+    let? (st, r2) := next_or_err r1 in
+    let? r3 := next_sep_or_err C_DOT r2 in
+    let? r4 := next_sep_or_err C_DOT r3 in
+    let? (en, r5) := next_or_err r4 in
+    let (e, r6) := next_is_sep C_COMMA r5 in
+    let? r7 := (if e then three_dots r6 else POk r6) in
+    let? r8 := next_sep_or_err C_RPAREN r7 in
+    let start := range_bound (KW "MIN") st in
+    let end_ := range_bound (KW "MAX") en in
+    match start, end_ with
+    | Some (Lit 0%Z), None => POk ((None, None, e), consts, r8)
+    | None, Some (Lit v) =>
+        if (v =? I64_MAX_Z)%Z then POk ((None, None, e), consts, r8) else POk ((start, end_, e), consts, r8)
+    | _, _ => POk ((start, end_, e), consts, r8)
+    end
+  else POk ((None, None, false), consts, r1).
+
+(* ---------- ENUMERATED ---------- *)
+
+Definition is_none_N (o : option N) : bool := match o with None => true | Some _ => false end.
+
+Fixpoint read_enumerated_loop (fuel : nat) (ts : toks) (acc : list (str * option N)) (ext : option N)
+  : pres (list (str * option N) * option N * toks) :=
+  match fuel with
+  | O => POutOfFuel
+  | S fuel' =>
+      let finish (cont : bool) (r : toks) (acc' : list (str * option N)) (ext' : option N) :=
+        if cont then read_enumerated_loop fuel' r acc' ext' else POk (rev acc', ext', r) in
+      match next_if_sep C_DOT ts with
+      | POk (marker, r) =>
+          match acc with
+          | [] => PErr E_INVALID_POSITION_FOR_EXTENSION_MARKER (Some marker)
+          | _ :: _ =>
+              if negb (is_none_N ext) then PErr E_INVALID_POSITION_FOR_EXTENSION_MARKER (Some marker)
+              else
+                let? r1 := next_sep_or_err C_DOT r in
+                let? r2 := next_sep_or_err C_DOT r1 in
+                let? (t, r3) := next_or_err r2 in
+                let? cont := loop_ctrl t in
+                finish cont r3 acc (Some (N.of_nat (length acc) - 1))
+          end
+      | _ =>
+          let? (name, r) := next_text_or_err ts in
+          let? (t, r1) := next_or_err r in
+          if eq_separator t C_COMMA || eq_separator t C_RBRACE then
+            let? cont := loop_ctrl t in finish cont r1 ((name, None) :: acc) ext
+          else if eq_separator t C_LPAREN then
+            let? (nt, r2) := next_or_err r1 in
+            match match tok_text nt with Some s => parse_u64 s | None => None end with
+            | None => PErr E_INVALID_NUMBER_FOR_ENUM_VARIANT (Some nt)
+            | Some number =>
+                let? r3 := next_sep_or_err C_RPAREN r2 in
+                let? (t', r4) := next_or_err r3 in
+                let? cont := loop_ctrl t' in
+                finish cont r4 ((name, Some number) :: acc) ext
+            end
+          else let? cont := loop_ctrl t in finish cont r1 acc ext
+      end
+  end.
+
+(* Enumerated::try_from *)
+Definition read_enumerated (ts : toks) : pres (list (str * option N) * option N * toks) :=
+  let? r := next_sep_or_err C_LBRACE ts in
+  read_enumerated_loop (S (length r)) r [] None.
+
+(* ---------- WITH COMPONENTS (parsed, result dropped) ---------- *)
+
+Fixpoint read_value_constraint (fuel : nat) (level : N) (ts : toks) : pres toks :=
+  match fuel with
+  | O => POutOfFuel
+  | S fuel' =>
+      if (level =? 0) && peek_is_sep C_RPAREN ts then POk ts
+      else
+        let? (t, r) := next_or_err ts in
+        match t with
+        | Text _ _ _ => read_value_constraint fuel' level r
+        | Separator _ _ c =>
+            if c =? C_LPAREN then read_value_constraint fuel' (level + 1) r
+            else if c =? C_RPAREN then read_value_constraint fuel' (level - 1) r
+            else read_value_constraint fuel' level r
+        end
+  end.
+
+Definition read_presence_constraint (ts : toks) : pres toks :=
+  let? (t, r) := next_or_err ts in
+  if eq_text_ic t (KW "PRESENT") || eq_text_ic t (KW "ABSENT") || eq_text_ic t (KW "OPTIONAL") then POk r
+  else PErr E_UNEXPECTED_TOKEN (Some t).
+
+Fixpoint read_itc_entries (fuel : nat) (ts : toks) : pres toks :=
+  match fuel with
+  | O => POutOfFuel
+  | S fuel' =>
+      if peek_is_sep C_RBRACE ts then POk ts
+      else
+        let? (_, r) := next_text_or_err ts in
+        let? r1 := (if peek_is_sep C_LPAREN r then
+                      let? a := next_sep_or_err C_LPAREN r in
+                      let? b := read_value_constraint (S (length a)) 0 a in
+                      next_sep_or_err C_RPAREN b
+                    else POk r) in
+        let? r2 := (match r1 with
+                    | [] => PErr E_END_OF_STREAM None
+                    | t :: _ => if is_text t then read_presence_constraint r1 else POk r1
+                    end) in
+        if peek_is_sep C_COMMA r2 then
+          let? r3 := next_sep_or_err C_COMMA r2 in read_itc_entries fuel' r3
+        else POk r2
+  end.
+
+(* InnerTypeConstraints::try_from *)
+Definition read_inner_type_constraints (ts : toks) : pres toks :=
+  let? (_, r0) := next_text_eq_ic_or_err (KW "WITH") ts in
+  let? (_, r1) := next_text_eq_ic_or_err (KW "COMPONENTS") r0 in
+  let? r2 := next_sep_or_err C_LBRACE r1 in
+  let? r3 := (if peek_is_sep C_DOT r2 then
+                let? a := three_dots r2 in
+                if peek_is_sep C_COMMA a then next_sep_or_err C_COMMA a else POk a
+              else POk r2) in
+  let? r4 := read_itc_entries (S (length r3)) r3 in
+  next_sep_or_err C_RBRACE r4.
+
+(* Model::maybe_read_with_components_constraint *)
+Definition maybe_read_with_components (ts : toks) : pres toks :=
+  let (b, r) := next_is_sep C_LPAREN ts in
+  if b then let? r1 := read_inner_type_constraints r in next_sep_or_err C_RPAREN r1
+  else POk r.
+
+(* ---------- literals ---------- *)
+
+Definition is_hexdigit (c : N) : bool :=
+  is_ascii_digit c || ((65 <=? c) && (c <=? 70)) || ((97 <=? c) && (c <=? 102)).
+
+Definition hex_val (c : N) : N :=
+  if is_ascii_digit c then c - 48 else if (65 <=? c) && (c <=? 70) then c - 55 else c - 87.
+
+Fixpoint hex_pairs (s : str) : list N :=
+  match s with
+  | a :: b :: r => (hex_val a * 16 + hex_val b) :: hex_pairs r
+  | _ => []
+  end.
+
+Definition hex_bytes (s : str) : list N :=
+  if N.odd (N.of_nat (length s)) then
+    match s with c :: r => hex_val c :: hex_pairs r | [] => [] end
+  else hex_pairs s.
+
+Fixpoint bits_val (s : str) (acc : N) : N :=
+  match s with [] => acc | c :: r => bits_val r (2 * acc + (c - 48)) end.
+
+Fixpoint chunks8 (fuel : nat) (s : str) : list N :=
+  match fuel with
+  | O => []
+  | S f => match s with [] => [] | _ => bits_val (firstn 8 s) 0 :: chunks8 f (skipn 8 s) end
+  end.
+
+(* the octets of a bstring: right-aligned (vec[len-1-i/8] += 2^(i%8) for the i-th character from the right) *)
+Definition bit_bytes (s : str) : list N :=
+  let n := length s in
+  let pad := Nat.modulo (8 - Nat.modulo n 8) 8 in
+  chunks8 (S n) (repeat 48 pad ++ s)%list.
+
+Definition is_int_text (s : str) : bool :=
+  forallb is_ascii_digit s
+  || match s with 45 :: (_ :: _) as r => forallb is_ascii_digit r | _ => false end.
+
+(* LiteralValue::try_from_asn_str; the two slicings `slice[1..len-1]`, `slice[1..len-2]` panic when the
+   slice is shorter than its delimiters *)
+Definition literal_of_asn_str (s : str) : pres (option literal) :=
+  if eq_ignore_case s (KW "true") then POk (Some (LBool true))
+  else if eq_ignore_case s (KW "false") then POk (Some (LBool false))
+  else if match s with 34 :: _ => true | _ => false end && ends_with s [34] then
+    match s with
+    | _ :: ((_ :: _) as r) => POk (Some (LString (removelast r)))
+    | _ => PPanic P_SLICE_RANGE
+    end
+  else if is_int_text s then
+    POk (match parse_i64 s with Some v => Some (LInteger v) | None => None end)
+  else if match s with 39 :: _ => true | _ => false end && (ends_with s [39; 104] || ends_with s [39; 72]) then
+    match s with
+    | _ :: ((_ :: _ :: _) as r) =>
+        let hex := removelast (removelast r) in
+        if forallb is_hexdigit hex then POk (Some (LOctets (hex_bytes hex))) else POk None
+    | _ => PPanic P_SLICE_RANGE
+    end
+  else if match s with 39 :: _ => true | _ => false end && (ends_with s [39; 98] || ends_with s [39; 66]) then
+    match s with
+    | _ :: ((_ :: _ :: _) as r) =>
+        let bits := removelast (removelast r) in
+        if forallb (fun c => (c =? 48) || (c =? 49)) bits then POk (Some (LOctets (bit_bytes bits))) else POk None
+    | _ => PPanic P_SLICE_RANGE
+    end
+  else POk None.
+
+Definition spaces (from to : N) : str := repeat 32 (N.to_nat (to - from)).
+
+Fixpoint read_string_loop (fuel : nat) (delim : N) (ts : toks) (acc : str) (prev_col : N) : pres (str * toks) :=
+  match fuel with
+  | O => POutOfFuel
+  | S fuel' =>
+      let? (t, r) := next_or_err ts in
+      if eq_separator t delim then POk ((acc ++ [delim])%list, r)
+      else match t with
+           | Text _ c s =>
+               read_string_loop fuel' delim r (acc ++ spaces prev_col c ++ s)%list (c + N.of_nat (length s))
+           | Separator _ c ch =>
+               read_string_loop fuel' delim r (acc ++ spaces prev_col c ++ [ch])%list (c + 1)
+           end
+  end.
+
+(* Model::read_string_literal *)
+Definition read_string_literal (delim : N) (ts : toks) : pres (str * toks) :=
+  let? r0 := next_sep_or_err delim ts in
+  let? (t, r1) := next_or_err r0 in
+  let first_text := match tok_text t with Some s => s | None => [] end in
+  read_string_loop (S (length r1)) delim r1 (delim :: first_text) (tok_column t + N.of_nat (length first_text)).
+
+(* Model::read_hex_or_bit_string_literal *)
+Definition read_hex_or_bit_string_literal (ts : toks) : pres (str * toks) :=
+  let? (s, r) := read_string_literal C_APOS ts in
+  let? (t, r') := next_text_eq_any_ic_or_err [KW "H"; KW "B"] r in
+  match t with
+  | Text _ _ suffix => POk ((s ++ suffix)%list, r')
+  | Separator _ _ _ => PErr E_UNEXPECTED_TOKEN (Some t)
+  end.
+
+(* Model::read_literal *)
+Definition read_literal (ts : toks) : pres (literal * toks) :=
+  match ts with
+  | [] => PErr E_END_OF_STREAM None
+  | p :: _ =>
+      let? (s, r) :=
+        (if peek_is_text_ic (KW "true") ts || peek_is_text_ic (KW "false") ts
+            || match tok_text p with Some s => is_int_text s | None => false end
+         then next_text_or_err ts
+         else if peek_is_sep C_QUOTE ts then read_string_literal C_QUOTE ts
+         else if peek_is_sep C_APOS ts then read_hex_or_bit_string_literal ts
+         else PErr E_UNSUPPORTED_LITERAL (Some p)) in
+      let? l := literal_of_asn_str s in
+      match l with
+      | Some v => POk (v, r)
+      | None => PErr E_INVALID_LITERAL (Some (Text (tok_line p) (tok_column p) s))
+      end
+  end.
+
+(* ---------- the type grammar ---------- *)
+
+Definition ufield : Type := afield (lit_or_ref N) (lit_or_ref Z) (lit_or_ref literal).
+
+Definition charset_of (lower : str) : option charset :=
+  if str_eqb lower (KW "utf8string") then Some Utf8
+  else if str_eqb lower (KW "ia5string") then Some Ia5
+  else if str_eqb lower (KW "numericstring") then Some Numeric
+  else if str_eqb lower (KW "printablestring") then Some Printable
+  else if str_eqb lower (KW "visiblestring") then Some Visible
+  else None.
+
+Definition into_text_or (kind : N) (t : token) : pres str :=
+  match t with Text _ _ s => POk s | Separator _ _ _ => PErr kind (Some t) end.
+
+Fixpoint read_role_given_text (fuel : nat) (text : str) (ts : toks) {struct fuel} : pres (uty * toks) :=
+  match fuel with
+  | O => POutOfFuel
+  | S fuel' =>
+      let lower := map to_ascii_lower text in
+      if str_eqb lower (KW "integer") then
+        let? (r, c, ts') := read_integer ts in POk (TInteger r c, ts')
+      else if str_eqb lower (KW "boolean") then POk (TBoolean, ts)
+      else if str_eqb lower (KW "null") then POk (TNull, ts)
+      else match charset_of lower with
+      | Some cs => let? (s, ts') := maybe_read_size ts in POk (TString s cs, ts')
+      | None =>
+      if str_eqb lower (KW "octet") then
+        let? (_, r) := next_text_eq_ic_or_err (KW "STRING") ts in
+        let? (s, ts') := maybe_read_size r in POk (TOctetString s, ts')
+      else if str_eqb lower (KW "bit") then
+        let? (_, r) := next_text_eq_ic_or_err (KW "STRING") ts in
+        let? (c, r1) := maybe_read_constants N constant_u64_parser r in
+        let? (s, ts') := maybe_read_size r1 in POk (TBitString s c, ts')
+      else if str_eqb lower (KW "enumerated") then
+        let? (v, e, ts') := read_enumerated ts in POk (TEnumerated v e, ts')
+      else if str_eqb lower (KW "choice") then
+        let? (v, e, ts') := read_choice fuel' ts in POk (TChoice v e, ts')
+      else if str_eqb lower (KW "sequence") then
+        (* read_sequence_or_sequence_of *)
+        let? (size, r) := maybe_read_size ts in
+        let (b, r1) := next_is_text_ic (KW "OF") r in
+        if b then
+          let? (text', r2) := next_text_or_err r1 in
+          let? (inner, ts') := read_role_given_text fuel' text' r2 in POk (TSequenceOf inner size, ts')
+        else let? (f, e, ts') := read_components fuel' r1 in POk (TSequence f e, ts')
+      else if str_eqb lower (KW "set") then
+        let? (size, r) := maybe_read_size ts in
+        let (b, r1) := next_is_text_ic (KW "OF") r in
+        if b then
+          let? (text', r2) := next_text_or_err r1 in
+          let? (inner, ts') := read_role_given_text fuel' text' r2 in POk (TSetOf inner size, ts')
+        else let? (f, e, ts') := read_components fuel' r1 in POk (TSet f e, ts')
+      else
+        let? ts' := maybe_read_with_components ts in POk (TRef text None, ts')
+      end
+  end
+
+(* ComponentTypeList::try_from *)
+with read_components (fuel : nat) (ts : toks) {struct fuel} : pres (list ufield * option N * toks) :=
+  match fuel with
+  | O => POutOfFuel
+  | S fuel' =>
+      let? r := next_sep_or_err C_LBRACE ts in
+      components_loop fuel' r [] None
+  end
+
+with components_loop (fuel : nat) (ts : toks) (acc : list ufield) (ext : option N) {struct fuel}
+  : pres (list ufield * option N * toks) :=
+  match fuel with
+  | O => POutOfFuel
+  | S fuel' =>
+      let (b, r) := next_is_sep C_RBRACE ts in
+      if b then POk (rev acc, ext, r)
+      else
+        let (d, r1) := next_is_sep C_DOT r in
+        if d then
+          let? r2 := next_sep_or_err C_DOT r1 in
+          let? r3 := next_sep_or_err C_DOT r2 in
+          let ext' := Some (N.of_nat (length acc) - 1) in          (* field_len.saturating_sub(1) *)
+          let? (t, r4) := next_or_err r3 in
+          if eq_separator t C_COMMA then components_loop fuel' r4 acc ext'
+          else if eq_separator t C_RBRACE then POk (rev acc, ext', r4)
+          else PErr E_UNEXPECTED_TOKEN (Some t)
+        else
+          let? (f, continues, r2) := read_field fuel' r1 in
+          if continues then components_loop fuel' r2 (f :: acc) ext
+          else POk (rev (f :: acc), ext, r2)
+  end
+
+(* Model::read_field *)
+with read_field (fuel : nat) (ts : toks) {struct fuel} : pres (ufield * bool * toks) :=
+  match fuel with
+  | O => POutOfFuel
+  | S fuel' =>
+      let? (name, r0) := next_text_or_err ts in
+      let? (t, tag, r1) := next_with_opt_tag r0 in
+      let? text := into_text_or E_EXPECTED_TEXT t in
+      let? (ty0, r2) := read_role_given_text fuel' text r1 in
+      let? (t1, r3) := next_or_err r2 in
+      let? (ty1, dflt, t2, r4) :=
+        (if eq_text_ic t1 (KW "OPTIONAL") then
+           let? (t', r') := next_or_err r3 in POk (TOptional ty0, None, t', r')
+         else if eq_text_ic t1 (KW "DEFAULT") then
+           let? (d, r') :=
+             (match read_literal r3 with
+              | POk (v, r') => POk (Lit v, r')
+              | PErr k (Some tk) =>
+                  if (k =? E_UNSUPPORTED_LITERAL) && is_text tk then
+                    let? (s, r') := next_text_or_err r3 in POk (Ref s, r')
+                  else PErr k (Some tk)
+              | PErr k None => PErr k None
+              | PPanic p => PPanic p
+              | POutOfFuel => POutOfFuel
+              end) in
+           let? (t', r'') := next_or_err r' in POk (ty0, Some d, t', r'')
+         else POk (ty0, None, t1, r3)) in
+      if eq_separator t2 C_COMMA then POk ((name, (tag, ty1, dflt)), true, r4)
+      else if eq_separator t2 C_RBRACE then POk ((name, (tag, ty1, dflt)), false, r4)
+      else PErr E_UNEXPECTED_TOKEN (Some t2)
+  end
+
+(* Choice::try_from *)
+with read_choice (fuel : nat) (ts : toks) {struct fuel}
+  : pres (list (str * option atag * uty) * option N * toks) :=
+  match fuel with
+  | O => POutOfFuel
+  | S fuel' =>
+      let? r := next_sep_or_err C_LBRACE ts in
+      choice_loop fuel' r [] None
+  end
+
+with choice_loop (fuel : nat) (ts : toks) (acc : list (str * option atag * uty)) (ext : option N) {struct fuel}
+  : pres (list (str * option atag * uty) * option N * toks) :=
+  match fuel with
+  | O => POutOfFuel
+  | S fuel' =>
+      let? (acc', ext', r) :=
+        (match next_if_sep C_DOT ts with
+         | POk (marker, r) =>
+             match acc with
+             | [] => PErr E_INVALID_POSITION_FOR_EXTENSION_MARKER (Some marker)
+             | _ :: _ =>
+                 if negb (is_none_N ext) then PErr E_INVALID_POSITION_FOR_EXTENSION_MARKER (Some marker)
+                 else
+                   let? r1 := next_sep_or_err C_DOT r in
+                   let? r2 := next_sep_or_err C_DOT r1 in
+                   POk (acc, Some (N.of_nat (length acc) - 1), r2)
+             end
+         | _ =>
+             let? (name, r0) := next_text_or_err ts in
+             let? (t, tag, r1) := next_with_opt_tag r0 in
+             let? text := into_text_or E_EXPECTED_TEXT t in
+             let? (ty0, r2) := read_role_given_text fuel' text r1 in
+             POk ((name, tag, ty0) :: acc, ext, r2)
+         end) in
+      let? (t, r') := next_or_err r in
+      let? cont := loop_ctrl t in
+      if cont then choice_loop fuel' r' acc' ext' else POk (rev acc', ext', r')
+  end.
+
+(* Model::read_role *)
+Definition read_role (fuel : nat) (ts : toks) : pres (uty * toks) :=
+  let? (text, r) := next_text_or_err ts in read_role_given_text fuel text r.
+
+Definition definition_sep (ts : toks) : pres toks :=
+  let? r1 := next_sep_or_err C_COLON ts in
+  let? r2 := next_sep_or_err C_COLON r1 in
+  next_sep_or_err C_EQ r2.
+
+(* Model::read_definition (after the name) *)
+Definition read_definition (fuel : nat) (ts : toks) : pres (uasn * toks) :=
+  let? r := definition_sep ts in
+  let? (t, tag, r1) := next_with_opt_tag r in
+  (* the SEQUENCE / SET / ENUMERATED / CHOICE arms do what read_role_given_text does for these words *)
+  match t with
+  | Text _ _ text =>
+      let? (ty0, r2) := read_role_given_text fuel text r1 in POk ((tag, ty0, None), r2)
+  | Separator _ _ _ => PErr E_UNEXPECTED_TOKEN (Some t)
+  end.
+
+(* Model::read_value_reference (after the name) *)
+Definition read_value_reference (fuel : nat) (ts : toks) : pres (uasn * literal * toks) :=
+  let? (ty0, r) := read_role fuel ts in
+  let? r1 := definition_sep r in
+  let? (l, r2) := read_literal r1 in
+  POk ((None, ty0, None), l, r2).
+
+(* ---------- the module ---------- *)
+
+Definition strip_suffix (name suffix : str) : str :=
+  if ends_with name suffix then firstn (length name - length suffix) name else name.
+
+(* Model::make_name_nice *)
+Definition make_name_nice (name : str) : str :=
+  strip_suffix (strip_suffix name (KW "_Module")) (KW "Module").
+
+Fixpoint skip_until_after (kw : str) (ts : toks) : pres toks :=
+  match ts with
+  | [] => PErr E_END_OF_STREAM None
+  | t :: r => if eq_text_ic t kw then POk r else skip_until_after kw r
+  end.
+
+Definition umodel : Type := amodel uasn.
+
+Fixpoint module_loop (fuel : nat) (tfuel : nat) (ts : toks) (name : str) (oid : option (list oidc))
+         (imports : list import) (defs : list (str * uasn)) (vals : list (str * uasn * literal)) : pres umodel :=
+  match fuel with
+  | O => POutOfFuel
+  | S fuel' =>
+      match ts with
+      | [] => PErr E_END_OF_STREAM None
+      | t :: r =>
+          if eq_text_ic t (KW "END") then
+            POk {| m_name := make_name_nice name; m_oid := oid;
+                   m_imports := map (fun i => {| i_what := i_what i; i_from := make_name_nice (i_from i);
+                                                 i_from_oid := i_from_oid i |}) imports;
+                   m_definitions := rev defs; m_value_references := rev vals |}
+          else if eq_text_ic t (KW "IMPORTS") then
+            let? (is, r') := read_imports r in
+            module_loop fuel' tfuel r' name oid (imports ++ is) defs vals
+          else if peek_is_sep C_COLON r then
+            let? dname := into_text_or E_UNEXPECTED_TOKEN t in
+            let? (a, r') := read_definition tfuel r in
+            module_loop fuel' tfuel r' name oid imports ((dname, a) :: defs) vals
+          else
+            let? vname := into_text_or E_UNEXPECTED_TOKEN t in
+            let? (a, l, r') := read_value_reference tfuel r in
+            module_loop fuel' tfuel r' name oid imports defs ((vname, a, l) :: vals)
+      end
+  end.
+
+(* Model::try_from *)
+Definition parse_module (fuel : nat) (ts : toks) : pres umodel :=
+  match ts with
+  | Text _ _ name :: r =>
+      let? (oid, r1) := maybe_read_oid r in
+      let? r2 := skip_until_after (KW "BEGIN") r1 in
+      module_loop (S (length r2)) fuel r2 name oid [] [] []
+  | _ => PErr E_MISSING_MODULE_NAME None
+  end.
+
+(* fuel that is always enough for the type grammar: every unit of fuel spent without consuming a token is
+   followed, within three calls, by one that consumes a token (see ParseProofs) *)
+Definition parse_fuel (ts : toks) : nat := 4 * length ts + 16.
+
+Definition parse (ts : toks) : pres umodel := parse_module (parse_fuel ts) ts.
